@@ -70,6 +70,7 @@ type c08Case struct {
 	BodyLen int    `json:"body_len"`
 	Cuts    []int  `json:"cuts,omitempty"`
 	Field   string `json:"field"` // which field the generator perturbed (for the class)
+	Hold0   bool   `json:"hold0,omitempty"` // the peer is configured with hold time 0
 }
 
 func (c c08Case) faults() (marker, length, typ bool) {
@@ -109,6 +110,9 @@ func c08Prop(t *testing.T, r *hx.Run, sub string) func(c c08Case) hx.Verdict {
 			return v
 		}
 		p := basePeer(c.Out)
+		if c.Hold0 {
+			p.Hold = 0
+		}
 		var dev *hx.Dev
 		fail := func(key, f string, a ...any) {
 			if dev == nil {
@@ -264,6 +268,7 @@ func c08Base(state string, out bool) c08Case {
 func genC08(rt *rapid.T) c08Case {
 	c := c08Base(pick(rt, "state", allStates...), rapid.Bool().Draw(rt, "out"))
 	c.Shared = rapid.Bool().Draw(rt, "shared")
+	c.Hold0 = rapid.IntRange(0, 3).Draw(rt, "hold0") == 0
 	if c.State == stEstablished {
 		c.Prefix = nil
 		for i, n := 0, rapid.IntRange(0, 5).Draw(rt, "nprefix"); i < n; i++ {
